@@ -5516,3 +5516,192 @@ REGISTRY["C01"] = [
     _under(c10_partial_frame_recorded, "C01", "c10_", "c01_"),
     _under(c10_reader, "C01", "c10_", "c01_"),
 ]
+
+
+# ---- C10 / C02: the receiver-side relay in the session loop: forwards every transfer, registers first transfers --
+
+
+def _find_marker(x, key, depth=0):
+    if depth > 6 or not isinstance(x, mir.Agg):
+        return False
+    if x.get(key) is not None:
+        return True
+    for k in list(x.keys()):
+        if k == key:
+            continue
+        if _find_marker(x.get(k), key, depth + 1):
+            return True
+    return False
+
+
+def _relay_transfer_history(env, prop):
+    """LinkRelay<OutputHandle>::on_incoming_transfer (runs in the session loop for every incoming transfer) over a
+    history of TWO frames from the state the relay has after attach (more = false). A ghost bit follows the AMQP
+    meaning of the frames: a delivery is in progress after a frame with more=true that is not aborted."""
+    fwd = Obligation(("c10" if prop == "C10" else prop.lower()) + "_relay_forwards_every_transfer_to_the_link", prop)
+    fwd.desc = "LinkRelay::on_incoming_transfer (receiver side, session loop), two frames in a row from the attach state: whenever it reports success the transfer -- aborted or not, first or continuation, whatever the relay remembers about the delivery in progress -- was handed to the link's channel; the link alone decides what an abort discards (c10_abort_discards_the_partial_delivery), a frame filtered here leaves the link's partial delivery in place and the next delivery is spliced onto it"
+    reg = Obligation(("c02" if prop == "C02" else prop.lower()) + "_first_transfer_of_a_delivery_is_made_routable", prop)
+    reg.desc = "same function, same two-frame histories: on a link that settles second, a non-settled transfer that STARTS a delivery (no delivery in progress: the previous frame had more=false or was aborted) and carries delivery-id and tag yields the routing entry (delivery-id, tag) the session stores for the sender's settling disposition -- without it that disposition is dropped and the receiver keeps the delivery unsettled for good"
+    fn = env.fn(r"^link::<impl at [^>]*>::on_incoming_transfer::\{closure#0\}$", sig=r"LinkRelay<(endpoint::)?OutputHandle>")
+    LR = env.enums.get("LinkRelay")
+    RSM = env.enums.get("ReceiverSettleMode")
+    if not LR or not RSM:
+        raise mir.Unsupported("LinkRelay / ReceiverSettleMode layout not found")
+    i_id, i_tag, i_settled, i_more, i_ab = (env.fidx("Transfer", f) for f in ("delivery_id", "delivery_tag", "settled", "more", "aborted"))
+    # fields of the Receiver variant, by the order in the source
+    rv_fields = env.variant_fields("LinkRelay", "Receiver") if hasattr(env, "variant_fields") else None
+    txt = "\n".join(t for b in fn.blocks.values() for t in (b[0] + [b[1]]))
+    m_more = re.search(r"as Receiver\)\.(\d+): bool\)", txt)
+    m_mode = re.search(r"as Receiver\)\.(\d+): [\w:]*ReceiverSettleMode\)", txt)
+    if not m_more or not m_mode:
+        raise mir.Unsupported("Receiver relay fields not found")
+    f_more, f_mode = int(m_more.group(1)), int(m_mode.group(1))
+    am = re.search(r"move \(\(\*_\d+\)\.(\d+): [\w:]*Transfer\)", txt)
+    sm = re.search(r"move \(\(\*_\d+\)\.(\d+): &mut (link::)?LinkRelay<", txt)
+    pm = re.search(r"move \(\(\*_\d+\)\.(\d+): (bytes::)?Bytes\)", txt)
+    if not am or not sm or not pm:
+        raise mir.Unsupported("arguments of LinkRelay::on_incoming_transfer not found in the coroutine")
+    fwd.functions = reg.functions = [fn.name]
+    bounds = ["histories of two frames from the attach state (relay.more = false); every combination of delivery-id / tag / settled present or absent, more, aborted, rcv-settle-mode; the channel send ready (Ok or Err) at the first poll"]
+    fwd.bounds = reg.bounds = bounds
+    fwd.assumes = reg.assumes = ["tokio mpsc Sender::send delivers the value it is given when it returns Ok; Option::clone keeps presence"]
+    mode_d = z3.BitVec("relay.rcv_settle_mode", 64)
+    hyp0 = [z3.Or(*[mode_d == v for v in RSM.values()])]
+
+    def frame(k):
+        T = mir.Agg("Transfer")
+        T["@frame"] = k
+        v = {}
+        for nm, idx in (("id", i_id), ("tag", i_tag), ("settled", i_settled)):
+            a = mir.Agg("Option")
+            v[nm] = z3.BitVec(f"frame{k}.{nm}.is_some", 64)
+            a["#d"] = v[nm]
+            sub = mir.Agg("Some")
+            if nm == "id":
+                v["id_val"] = BV32(f"frame{k}.delivery_id")
+                sub[0] = v["id_val"]
+            elif nm == "settled":
+                v["settled_val"] = z3.Bool(f"frame{k}.settled")
+                sub[0] = v["settled_val"]
+            else:
+                sub[0] = mir.Agg("tag")
+            a[("as", "Some")] = sub
+            T[idx] = a
+            hyp0.append(z3.ULE(v[nm], 1))
+        v["more"], v["aborted"] = z3.Bool(f"frame{k}.more"), z3.Bool(f"frame{k}.aborted")
+        T[i_more], T[i_ab] = v["more"], v["aborted"]
+        return T, v
+
+    def m_clone_opt(ex_, st, callee, args, argvals, dty):
+        x = argvals[0]
+        k_ = 0
+        while isinstance(x, mir.Ref) and k_ < 4:
+            cont, key = ex_.resolve(st, list(x.path))
+            x = cont.get(key)
+            k_ += 1
+        if not (isinstance(x, mir.Agg) and "#d" in x):
+            return None
+        c = mir.Agg("Option")
+        c["#d"] = x["#d"]
+        if ("as", "Some") in x:
+            c[("as", "Some")] = x[("as", "Some")]
+        return c
+
+    def step(k, relay, cond):
+        ex = env.executor(max_visits=3)
+        ex.max_paths = 3000
+        ex.models = [(r"^<(std::option::)?Option<(serde_bytes::(bytebuf::)?)?ByteBuf> as Clone>::clone$", m_clone_opt)]
+        T, v = frame(k)
+        cor = mir.Agg("coroutine")
+        cor["#d"] = z3.BitVecVal(0, 64)
+        cor[int(sm.group(1))] = mir.Ref(("@relay",), True)
+        cor[int(am.group(1))] = T
+        cor[int(pm.group(1))] = mir.Agg("payload")
+        pin = mir.Agg("pin")
+        pin[0] = mir.Ref(("@cor",), True)
+        paths = ex.run(fn, {"_1": pin, "@cor": cor, "@relay": relay}, cond=cond)
+        return ex, paths, v
+
+    def new_relay():
+        relay = mir.Agg("relay")
+        relay["#d"] = z3.BitVecVal(LR["Receiver"], 64)
+        r = mir.Agg("Receiver")
+        md = mir.Agg("ReceiverSettleMode")
+        md["#d"] = mode_d
+        r[f_mode] = md
+        r[f_more] = z3.BoolVal(False)
+        relay[("as", "Receiver")] = r
+        return relay
+
+    def replay_fwd(m):
+        return "scn abort_then_next 0", (lambda js: js.get("panic") or not js["next_delivery_intact"])
+
+    def replay_reg(m):
+        return "scn abort_then_next 1", (lambda js: js.get("panic") or not js["next_delivery_intact"] or js["left_unsettled"] != 0)
+
+    def goals(k, ex, p, v, ghost, hyps):
+        rdy, is_ok = poll_ready_result(p.ret)
+        if is_ok is None:
+            return False
+        H = ex.assumptions + hyp0 + hyps + p.cond + [rdy, is_ok]
+        s = z3.Solver()
+        s.add(*H)
+        if s.check() != z3.sat:
+            return False
+        sends = [c for c in p.calls if re.search(r"mpsc::(bounded::)?Sender::<.*LinkFrame>::send$", c[0])]
+        handed = [c for c in sends if len(c[1]) > 1 and _find_marker(c[1][1], "@frame")]
+        fwd.prove(f"frame{k}:path{p.idx}:forwarded-to-the-link", H, z3.BoolVal(len(handed) == 1), replay=replay_fwd)
+        okv = p.ret[("as", "Ready")][0].get(("as", "Ok"))
+        opt = okv.get(0) if isinstance(okv, mir.Agg) else None
+        out_d = opt.get("#d") if isinstance(opt, mir.Agg) else None
+        unsettled = z3.Not(z3.And(v["settled"] == 1, v["settled_val"]))
+        starts = z3.And(z3.Not(ghost), unsettled, mode_d == RSM["Second"], v["id"] == 1, v["tag"] == 1)
+        if out_d is None:
+            reg.prove(f"frame{k}:path{p.idx}:routing-entry-for-a-first-transfer", H + [starts], z3.BoolVal(False), replay=replay_reg)
+        else:
+            some = opt.get(("as", "Some"))
+            tup = some.get(0) if isinstance(some, mir.Agg) else None
+            idv = tup.get(0) if isinstance(tup, mir.Agg) else None
+            g = out_d == 1
+            if idv is not None and z3.is_bv(idv):
+                g = z3.And(g, idv == v["id_val"])
+            reg.prove(f"frame{k}:path{p.idx}:routing-entry-for-a-first-transfer", H + [starts], g, replay=replay_reg)
+        return True
+
+    n1 = n2 = 0
+    ex1, paths1, v1 = step(1, new_relay(), [])
+    for i, p in enumerate(paths1):
+        p.idx = i
+        if p.end != "return" or not isinstance(p.ret, mir.Agg):
+            continue
+        if not goals(1, ex1, p, v1, z3.BoolVal(False), []):
+            continue
+        n1 += 1
+        rdy, is_ok = poll_ready_result(p.ret)
+        ghost2 = z3.And(v1["more"], z3.Not(v1["aborted"]))
+        relay2 = p.locals.get("@relay")
+        if not isinstance(relay2, mir.Agg):
+            raise mir.Unsupported("relay state lost")
+        ex2, paths2, v2 = step(2, relay2, ex1.assumptions + p.cond + [rdy, is_ok])
+        for j, q in enumerate(paths2):
+            q.idx = f"{i}.{j}"
+            if q.end != "return" or not isinstance(q.ret, mir.Agg):
+                continue
+            if goals(2, ex2, q, v2, ghost2, []):
+                n2 += 1
+    for o_ in (fwd, reg):
+        o_.cover("first-frame paths", [z3.BoolVal(n1 > 1)])
+        o_.cover("second-frame paths", [z3.BoolVal(n2 > 1)])
+    return fwd, reg
+
+
+def c10_relay_forwards(env):
+    return [_relay_transfer_history(env, "C10")[0]]
+
+
+def c02_relay_registers(env):
+    return [_relay_transfer_history(env, "C02")[1]]
+
+
+REGISTRY.setdefault("C10", []).append(c10_relay_forwards)
+REGISTRY.setdefault("C02", []).append(c02_relay_registers)
